@@ -9,7 +9,7 @@ use crate::json::J;
 use crate::verdict::{Ctx, Tier};
 
 pub fn run(ctx: &Ctx) -> i32 {
-    let sizes = Sizes { random: (1500, 40_000), deep: (300, 8000), level0_only: false, max_levels: 255, budget: 50_000 };
+    let sizes = Sizes { random: (3000, 40_000), deep: (800, 10_000), level0_only: false, max_levels: 255, budget: 50_000 };
     let max_keys = ctx.tier.pick(40, 400);
     for_each_file(ctx, &sizes, |b, rng| {
         let keys: Vec<&[u8]> = b.entries.iter().map(|(k, _)| k.as_slice()).collect();
